@@ -4,13 +4,13 @@
         fmt 4 SRT:      payload [[timing line; text] ...] (non-empty)    fmt 5 SCC:    payload body
         [0; pre; post] DFXP skeleton pre ++ "</tt>" ++ post             [3; rest] SAMI skeleton "<sami" ++ rest
    2003 [fmt; [[ [start; end; [node ...]] ...] ...]]  node = [0; text] | [1] | [2; start?; italics; underline; bold]
-        -> [document written by the writer model of model/OwnWrite.v (fmt 1 MicroDVD, 2 WebVTT, 4 SRT);
+        -> [document written by the writer model of model/OwnWrite.v (fmt 1 MicroDVD, 2 WebVTT, 4 SRT, 5 SCC: [-2] when the writer model raises);
             caption set in the domain of the own-output theorem that starts from the text nodes (spec/SpecOwnNodes.v)?;
             detect_format of the model on that document]                                                          *)
 From Coq Require Import List ZArith QArith Bool.
 From PV Require Import lib.Sx lib.Str lib.Result.
 From PV Require Import model.Generated model.Detect spec.SpecDetect spec.SpecOwn extract.OrCommon.
-From PV Require Import model.OwnWrite spec.SpecOwnNodes.
+From PV Require Import model.OwnWrite spec.SpecOwnNodes model.OwnWriteScc.
 Import ListNotations.
 Open Scope Z_scope.
 
@@ -88,6 +88,7 @@ Definition req_c20_write (arg : sx) : sx :=
           | 1 => out (mdvd_write ls) (mdvd_dom ls)
           | 2 => out (vtt_write ls) true
           | 4 => out (srt_write ls) (srt_dom ls)
+          | 5 => match scc_write ls with Ok doc => out doc true | Err _ => SL [SI (-2)] end
           | _ => bad
           end
       | None => bad
